@@ -302,6 +302,10 @@ def clause_e(c: Check):
                 is_in = truth if isinstance(g.ops[0], ast.In) else not truth
                 absent_established = absent_established or not is_in
                 present_established = present_established or is_in
+            if isinstance(g, ast.Name) and truth:
+                bs = arb.local_bindings().get(g.id, [])
+                if any(x[0] == 'assign' and x[1] is not None and unparse(x[1]).startswith(target + '.get(') for x in bs):
+                    present_established = True  # a true value from .get(): the key is present (and non-empty)
             if isinstance(g, ast.Compare) and isinstance(g.ops[0], (ast.Is, ast.IsNot)) and 'None' in t:
                 is_none = truth if isinstance(g.ops[0], ast.Is) else not truth
                 absent_established = absent_established or is_none
